@@ -246,6 +246,17 @@ def check(run, model, tier):
     from props.c06 import atomic_subscribe
     run.rule('ATOMIC.subscribe', 'the fabric decides "already registered?" and updates the registry in one critical section')
     atomic_subscribe(run, model, fabric.wiring(model))
+    # subscriber lists only ever grow: the delivery threads iterate them without the lock
+    run.rule('LAYER.registry-grows', 'outside the fabric\'s clear() nothing removes from, reorders or slice-replaces a subscriber list (delivery threads iterate the lists unlocked)')
+    from sa.fabric import registry_shrink_sites, wiring as _wiring
+    sites_ = registry_shrink_sites(model, _wiring(model))
+    for f_, n_, txt_ in sites_:
+        run.inst('LAYER.registry-grows', f_, 'shrinks a subscriber list: ' + txt_[:60], False,
+                 ('%s shrinks a subscriber list of the fabric in place (%s). The delivery threads iterate these lists without the subscription lock: when the list loses an element '
+                  'under a running iteration the iterator steps over the next subscriber, which is registered and running but never receives that publication'
+                  % (f_.qualname, txt_[:80])), node=n_, obligation=True)
+    if not sites_:
+        run.inst('LAYER.registry-grows', 'activeobject.<package>', 'no function removes from a subscriber list', True, obligation=True)
     run.assume('the fabric side of delivery is C06; queue placement is C09')
 
 
